@@ -197,20 +197,34 @@ def history_case(rng, name, mk, meta, ids):
     ops = []
     n_ops = int(rng.integers(1, 5))
     fitted = False
+    named = None
     for _ in range(n_ops):
         r = rng.random()
         if meta['kind'] in ('lf', 'pipe') and nu > 0 and r < 0.2:
             # same number of columns, different state / input split
             try:
-                do_fit(est, meta, D2, nu - 1); fitted = True; ops.append(f'fit(other, n_inputs={nu - 1})')
+                do_fit(est, meta, D2, nu - 1); fitted = True; named = None; ops.append(f'fit(other, n_inputs={nu - 1})')
             except Exception:  # noqa
                 # a fit that raised leaves the object in an undefined state (scikit-learn convention):
                 # the next operation must be a proper fit
                 ops.append('fit(other split) rejected'); fitted = False
+        elif meta['kind'] in ('lf', 'pipe', 'reg') and 0.2 <= r < 0.3:
+            # fitted on a DataFrame with named columns earlier; the fit under test gets a plain array
+            import pandas
+            cols = ['run'] + [f'signal {k}' for k in range(D2.shape[1] - 1)]
+            try:
+                do_fit(est, meta, pandas.DataFrame(D2, columns=cols), nu); fitted = True; named = cols
+                ops.append('fit(DataFrame with named columns)')
+            except Exception:  # noqa
+                ops.append('fit(DataFrame) rejected'); fitted = False
         elif r < 0.45 or not fitted:
-            do_fit(est, meta, D2 if rng.random() < 0.7 else D1, nu); fitted = True; ops.append('fit(other)')
+            do_fit(est, meta, D2 if rng.random() < 0.7 else D1, nu); fitted = True; named = None; ops.append('fit(other)')
         elif r < 0.7:
-            do_use(est, meta, D2); ops.append('use')
+            if named:
+                import pandas
+                do_use(est, meta, pandas.DataFrame(D2, columns=named)); ops.append('use(DataFrame)')
+            else:
+                do_use(est, meta, D2); ops.append('use')
         elif r < 0.85:
             p = est.get_params(deep=False)
             est.set_params(**p); ops.append('set_params(same)')
